@@ -18,6 +18,10 @@ func init() {
 	addLevel("C17", "an index equal to a log file's first index resolves to slot 0 of that file.")
 	addLevel("C19", "a handler that authorises writes does so before any sub-dispatch to a serve* method or use of the points writer; privilege updates reach the catalogue entry (no assignment to a by-value range copy of Data.Users) and DropDatabase revokes the dropped database from every user.")
 	addLevel("C20", "no literal of a key condition is converted from floating point to an integer; BloomFilter*IndexReader.ReInit creates the filter reader for the file it was given before every successful return (attached files).")
+	if p := All["C18"]; p != nil {
+		p.Level = "TWO structural necessary conditions of 'PromQL returns what Prometheus returns': (R1) every function name the PromQL transpiler can emit is registered with the registry of each layer that evaluates that class of function, so an accepted expression is never turned into an 'undefined function' error downstream; (R2) both copies of the rate/increase/delta extrapolation kernel (store-side range-vector merge, executor-side sub-query function) apply Prometheus's zero-crossing clamp only to counters — delta() of a gauge is extrapolated without it (one listed finding: the sub-query copy clamps unconditionally). " +
+			"NOT decided: numerical agreement with the Prometheus engine (window selection, extrapolation arithmetic, staleness, label sets, time rounding), which quantifies over sample values."
+	}
 	if p := All["C08"]; p != nil {
 		p.Level = "FIVE structural necessary conditions of 'query answers ignore chunking, parallelism and partitioning': (R1) wherever the planner stacks an aggregate on a lower-level aggregate of the same calls, the upper level is rewritten count→sum on every path, and the five CountToSum bodies agree; (R2) every test that orders a row time against a bound of a GROUP BY time() window (ProcessorOptions.Window results held in locals) is the two-sided half-open test start ≤ t < end or its negation, unless the function looks at the scan direction; (R3) the whole-chunk pass-through of the sorted merges is taken only for an input whose row cursor is 0 and into an empty output chunk; (R4) the aggregate iterators that carry a pending partial aggregate across chunks take their empty-input shortcut only when nothing is pending (prevPoint.isNil), in every sibling; (R5) the LimitTransform loops that feed SameGroup start at index 0 and pass every index to it (the tag cursor advances only at exact group starts). " +
 			"NOT decided (no sound static argument in reach relates two executions): independence from chunk size and parallelism of every operator, fill/limit/offset semantics, merge order, descending = reversed ascending, conformance with the documented semantics."
